@@ -14,6 +14,9 @@ type c10In struct {
 	Route      string `json:"route"`  // pipe_unary|http_unary|pipe_stream|http_init|pipe_describe|http_describe
 	HasClient  bool   `json:"has_client"`
 	ClientVers string `json:"client"`
+	// pipe routes: requests served earlier on the SAME connection, each declaring this version ("-" = key absent);
+	// the verdict on the case's own request must not depend on them
+	Prior []string `json:"prior,omitempty"`
 }
 
 var c10Routes = []string{"pipe_unary", "http_unary", "pipe_stream", "http_init", "pipe_describe", "http_describe"}
@@ -51,6 +54,15 @@ func c10Gen(r *rand.Rand, n int, tier string) []c10In {
 		out = append(out, c10In{Server: "", Route: rt, HasClient: true, ClientVers: "garbage"})
 		out = append(out, c10In{Server: "", Route: rt, HasClient: false})
 	}
+	// connection history: an admitted (or refused) earlier call on the same pipe must not lend its version to a later one
+	for _, rt := range []string{"pipe_unary", "pipe_stream", "pipe_describe"} {
+		for _, prior := range [][]string{{"2.10.7"}, {"2.10.3", "2.10.0"}, {"-"}, {"3.0.0"}, {"2.10.7", "-"}, {"garbage", "2.10.3"}} {
+			out = append(out, c10In{Server: "2.10.3", Route: rt, HasClient: false, Prior: prior})
+			out = append(out, c10In{Server: "2.10.3", Route: rt, HasClient: true, ClientVers: "3.1.0", Prior: prior})
+			out = append(out, c10In{Server: "2.10.3", Route: rt, HasClient: true, ClientVers: "2.10.03", Prior: prior})
+			out = append(out, c10In{Server: "2.10.3", Route: rt, HasClient: true, ClientVers: "2.10.9", Prior: prior})
+		}
+	}
 	out = append(out, c10In{Server: "99999999999999999999.0.0", Route: "pipe_unary", HasClient: true, ClientVers: "99999999999999999998.0.1"})
 	out = append(out, c10In{Server: "1.9223372036854775808.0", Route: "http_unary", HasClient: true, ClientVers: "1.9223372036854775807.0"})
 	for len(out) < n {
@@ -87,6 +99,12 @@ func c10Gen(r *rand.Rand, n int, tier string) []c10In {
 			}
 		default:
 			in.HasClient, in.ClientVers = true, c10Canon(r)
+		}
+		if strings.HasPrefix(in.Route, "pipe_") && in.Server != "" && r.Intn(4) == 0 {
+			p := strings.Split(in.Server, ".")
+			for k := 1 + r.Intn(3); k > 0; k-- {
+				in.Prior = append(in.Prior, []string{p[0] + "." + p[1] + "." + c10Part(r), "-", c10Canon(r), in.Server}[r.Intn(4)])
+			}
 		}
 		out = append(out, in)
 	}
@@ -144,14 +162,29 @@ func c10Run(in c10In) CaseOut {
 	var body []byte
 	var described bool
 	tags := []string{in.Route}
+	// earlier requests of the same connection: unary calls declaring the prior versions; their responses are
+	// cut off the front of the connection's output (each response is one IPC stream)
+	var prefix []byte
+	for _, pv := range in.Prior {
+		m := StdMeta("u_int", "rid-prior", "")
+		if pv != "-" {
+			m = append(m, [2]string{vgirpc.MetaProtocolVersion, pv})
+		}
+		sf.PushUnary(CallScript{Value: 7})
+		prefix = append(prefix, ReqBytes(PIntBatch(7), m)...)
+	}
+	if len(in.Prior) > 0 {
+		tags = append(tags, "connection-history")
+	}
+	nPrior := len(in.Prior)
 	switch in.Route {
 	case "pipe_unary":
-		body, _ = RunPipe(s, ReqBytes(PIntBatch(1), meta("u_int")))
+		body, _ = RunPipe(s, append(prefix, ReqBytes(PIntBatch(1), meta("u_int"))...))
 	case "pipe_stream":
 		in2 := append(ReqBytes(PIntBatch(1), meta("prod")), InputBytes(arrow.NewSchema(nil, nil), []InputItem{{Kind: "tick"}, {Kind: "tick"}})...)
-		body, _ = RunPipe(s, in2)
+		body, _ = RunPipe(s, append(prefix, in2...))
 	case "pipe_describe":
-		body, _ = RunPipe(s, ReqBytes(PIntBatch(1), meta("__describe__")))
+		body, _ = RunPipe(s, append(prefix, ReqBytes(PIntBatch(1), meta("__describe__"))...))
 	case "http_unary":
 		body = DoHTTP(vgirpc.NewHttpServer(s), "POST", "/u_int", ReqBytes(PIntBatch(1), meta("u_int")), nil).Body
 	case "http_init":
@@ -160,6 +193,22 @@ func c10Run(in c10In) CaseOut {
 		body = DoHTTP(vgirpc.NewHttpServer(s), "POST", "/__describe__", ReqBytes(PIntBatch(1), meta("__describe__")), nil).Body
 	}
 	streams := ParseStreams(body)
+	if nPrior > 0 { // the first nPrior response streams belong to the earlier requests
+		if len(streams) >= nPrior {
+			streams = streams[nPrior:]
+		} else {
+			streams = nil
+		}
+		sf.mu.Lock()
+		var own []string
+		for _, t := range sf.Trace {
+			if t != "u_int(x=7)" {
+				own = append(own, t)
+			}
+		}
+		sf.Trace = own
+		sf.mu.Unlock()
+	}
 	verdict, kind, etype := "C10.Admit", "", ""
 	for _, st := range streams {
 		for _, f := range st.Frames {
